@@ -254,6 +254,9 @@ func runC08(c *fw.Ctx) {
 	}
 	// concurrent arrival: a node's own writes on one retained topic while a peer's ahead-stamped updates
 	// of it are merged; the node must end up with what a follower fed with the same updates has
+	// retained writes under coarse clocks (two writes of one node inside one tick, clocks of the two nodes
+	// never equal): the nodes must still agree once everything is exchanged
+	c10Stalled(c)
 	for r := 0; r < c.Pick(2, 10); r++ {
 		c20HotTopic(c, 800+r)
 		// eight updates of one session / subscription / retained topic merged by eight goroutines at once:
